@@ -21,12 +21,21 @@ inductive ExpText : List Char → Prop
   | pos {E} : IsDigits E → ExpText ('e' :: E)
   | neg {E} : IsDigits E → ExpText ('e' :: '-' :: E)
 
+/-- value of an optional exponent part: nothing, `e E`, or `e - E` -/
+inductive ExpVal : List Char → Int → Prop
+  | none : ExpVal [] 0
+  | pos {E} : IsDigits E → ExpVal ('e' :: E) (digitsVal E)
+  | neg {E} : IsDigits E → ExpVal ('e' :: '-' :: E) (-(digitsVal E : Int))
+
+/-- `NumberVal t d`: the text `t` is digits, optional fraction, optional exponent, nothing
+    else, and denotes the exact decimal `d.mant · 10 ^ d.exp` -/
+inductive NumberVal : List Char → Decimal → Prop
+  | int {D e x} : IsDigits D → ExpVal e x → NumberVal (D ++ e) ⟨digitsVal D, x⟩
+  | frac {D F e x} : IsDigits D → IsDigits F → ExpVal e x →
+      NumberVal (D ++ '.' :: F ++ e) ⟨digitsVal (D ++ F), x - (F.length : Int)⟩
+
 /-- digits, optional fraction, optional exponent, nothing else -/
-inductive NumberText : List Char → Prop
-  | int {D} : IsDigits D → NumberText D
-  | intExp {D e} : IsDigits D → ExpText e → NumberText (D ++ e)
-  | frac {D F} : IsDigits D → IsDigits F → NumberText (D ++ '.' :: F)
-  | fracExp {D F e} : IsDigits D → IsDigits F → ExpText e → NumberText (D ++ '.' :: F ++ e)
+def NumberText (t : List Char) : Prop := ∃ d, NumberVal t d
 
 /-! ## One token -/
 
